@@ -43,6 +43,16 @@ func (m *Metrics) Write(w io.Writer) error {
 	if err := write("FullName %s", m.FullName); err != nil {
 		return err
 	}
+	if m.Version != "" {
+		if err := write("Version %s", m.Version); err != nil {
+			return err
+		}
+	}
+	if m.Notice != "" {
+		if err := write("Notice %s", m.Notice); err != nil {
+			return err
+		}
+	}
 	if err := write("FamilyName %s", strings.Split(m.FullName, " ")[0]); err != nil {
 		return err
 	}
